@@ -328,6 +328,10 @@ func (n *lazyNode) tryAry() bool {
 		return false
 	}
 
+	if n.ary == nil {
+		return false
+	}
+
 	n.which = eAry
 	return true
 }
@@ -345,6 +349,14 @@ func (n *lazyNode) isNull() bool {
 }
 
 func (n *lazyNode) equal(o *lazyNode) bool {
+	// A JSON null decodes to a nil node: it equals only another null.
+	if n == nil {
+		return o.isNull()
+	}
+	if o == nil {
+		return n.which == eRaw && n.isNull()
+	}
+
 	if n.which == eRaw {
 		if !n.tryDoc() && !n.tryAry() {
 			if o.which != eRaw {
@@ -982,6 +994,13 @@ func (p Patch) replace(doc *container, op Operation, options *ApplyOptions) erro
 
 	if path == "" {
 		val := op.value()
+
+		if val.isNull() {
+			// The document becomes null; hold it in a non-nil container so
+			// that later operations fail instead of dereferencing nil.
+			*doc = &partialArray{self: val}
+			return nil
+		}
 
 		if val.which == eRaw {
 			if !val.tryDoc() {
